@@ -158,6 +158,44 @@ func NewWorld(x *vstat.Ctx, opt Options) (*World, error) {
 	return w, nil
 }
 
+var (
+	aliasOnce    sync.Once
+	aliasPresent bool
+)
+
+// AppliedAliasesCommitted reports (once per process, on a throw-away store)
+// whether the v3 configuration store still keeps applied and committed values
+// in one Atomix map (C15's finding F-config-applied-aliases-committed, which
+// covers the v2 store as well and may stay listed for v2 after v3 is repaired):
+// an applied value written through UpdateStatus shows up as a committed one.
+func AppliedAliasesCommitted() bool {
+	aliasOnce.Do(func() {
+		client := test.NewClient()
+		defer client.Close()
+		st, err := cfgstore.NewAtomixStore(client)
+		if err != nil {
+			return
+		}
+		ctx := context.Background()
+		id := configapi.ConfigurationID{Target: configapi.Target{ID: "alias-probe", Type: model.M1Name, Version: model.M1Version}}
+		cfg := &configapi.Configuration{ID: id, Status: configapi.ConfigurationStatus{Mastership: &configapi.MastershipStatus{}}}
+		if err := st.Create(ctx, cfg); err != nil {
+			return
+		}
+		cfg.Applied.Values = map[string]configapi.PathValue{"/a/b": {Path: "/a/b", Value: *configapi.NewTypedValueString("x"), Index: 1}}
+		if err := st.UpdateStatus(ctx, cfg); err != nil {
+			return
+		}
+		got, err := st.Get(ctx, id)
+		if err != nil {
+			return
+		}
+		_, aliasPresent = got.Committed.Values["/a/b"]
+		_ = st.Close(ctx)
+	})
+	return aliasPresent
+}
+
 func single(controller.ID) string { return "" }
 
 func (w *World) buildControllers() {
